@@ -12,10 +12,12 @@ import (
 
 	"github.com/mgtv-tech/redis-GunYu/cmd"
 	"github.com/mgtv-tech/redis-GunYu/config"
+	pb "github.com/mgtv-tech/redis-GunYu/pkg/api/golang"
 	"github.com/mgtv-tech/redis-GunYu/pkg/cluster"
 	usync "github.com/mgtv-tech/redis-GunYu/pkg/sync"
 	"github.com/mgtv-tech/redis-GunYu/syncer"
 
+	"verifh/simsyncer"
 	"verifsim/simredis"
 	"verifsim/simrt"
 )
@@ -29,7 +31,7 @@ import (
 // whole syncer; the leader/follower body itself (RunLeader/RunFollower) is not simulated.
 
 func init() {
-	Register(&PropertyDef{ID: "C15", Strata: []string{"free", "nofault", "expiry", "renewloop", "free", "renewloop_faults"}, Run: runC15, StepCap: 1200})
+	Register(&PropertyDef{ID: "C15", Strata: []string{"free", "nofault", "expiry", "renewloop", "free", "renewloop_faults", "runcluster", "runcluster_faults"}, Run: runC15, StepCap: 1200})
 }
 
 const c15StoreAddr = "10.0.9.1:6379"
@@ -95,6 +97,23 @@ type c15Contender struct {
 
 	cl cluster.Cluster
 	el cluster.Election
+
+	// runcluster strata: the real cmd.runCluster drives this instance; its syncer is a stub
+	callSem   chan struct{} // see begin()
+	cfg       syncer.SyncerConfig
+	stopDelay atomic.Int64 // virtual ns the next Stop() of the stub syncer takes (a replication that is slow to wind down)
+	bodies    []c15Body    // leader/follower bodies started by runCluster (guarded by mu)
+}
+
+// c15Body: runCluster started the leader (or follower) body of this instance.
+type c15Body struct {
+	Leader  bool
+	StartNs int64
+	// the instance's last completed election call before the body started
+	LastKind string
+	LastTold bool // it was a campaign that told the instance it is leader
+	LastRet  int64
+	LastN    int
 }
 
 type c15Sim struct {
@@ -116,6 +135,25 @@ type c15Sim struct {
 	loop     *cmd.VerifLoop
 	faults   bool
 	calls    int
+	// runcluster strata
+	realRunCluster bool
+	keyMismatch    atomic.Bool
+	src            *simredis.Server // the source shard's master (answers runCluster's role question at once)
+}
+
+// pumpSource lets the source shard answer whatever it was asked: it is healthy and no subject of this property.
+func (s *c15Sim) pumpSource() {
+	if s.src == nil {
+		return
+	}
+	for i := 0; i < 1000; i++ {
+		rd := s.src.Ready()
+		if len(rd) == 0 {
+			return
+		}
+		s.src.Step(rd[0])
+		s.r.Settle()
+	}
 }
 
 func (s *c15Sim) snap() c15Snap {
@@ -134,6 +172,12 @@ func (s *c15Sim) rel(ns int64) string {
 
 func (c *c15Contender) begin(kind string) *c15Op {
 	s := c.sim
+	// one recorded call at a time per instance: the instance's calls share one connection, whose Do is exclusive
+	// anyway (runCluster's follower body asks for the leader while the ticker campaigns); the recorder takes that
+	// exclusion one level up so that every execution the store reports has exactly one call to belong to
+	if c.callSem != nil {
+		c.callSem <- struct{}{}
+	}
 	op := &c15Op{Who: c.idx, Kind: kind, Inv: 2 * s.step.Load()}
 	if w := c.loopWait.Load(); w != nil && (*w).IsClosed() {
 		op.Reported = true
@@ -168,6 +212,9 @@ func (c *c15Contender) end(op *c15Op, role cluster.ClusterRole, addr string, err
 	}
 	c.events = append(c.events, fmt.Sprintf("%s.%s#%d -> %s", c.id, op.Kind, op.N, res))
 	c.mu.Unlock()
+	if c.callSem != nil {
+		<-c.callSem
+	}
 }
 
 func shortErr(err error) string {
@@ -298,7 +345,11 @@ func (c *c15Contender) runLoop() {
 		c.mu.Lock()
 		c.down = false
 		c.mu.Unlock()
-		c.incarnation()
+		if c.sim.realRunCluster {
+			c.clusterIncarnation()
+		} else {
+			c.incarnation()
+		}
 		c.mu.Lock()
 		c.down = true
 		c.busy = false
@@ -359,6 +410,95 @@ func (c *c15Contender) incarnation() {
 		}
 	}
 }
+
+// runcluster strata: one instance life cycle = the REAL cmd.runCluster (through an injected accessor) on the real
+// Redis-based cluster client; only the replication it would start is a stub (simsyncer.Factory).
+func (c *c15Contender) clusterIncarnation() {
+	s := c.sim
+	runWait := usync.NewWaitCloserFromParent(c.parent, nil)
+	defer runWait.Close(nil)
+	op := c.begin("connect")
+	c.retire()
+	rc := config.RedisConfig{Addresses: []string{c15StoreAddr}, Type: config.RedisTypeStandalone, Otype: config.RedisTypeStandalone, Version: "7.2.0"}
+	cl, err := cluster.NewRedisCluster(runWait.Context(), rc, s.ttl)
+	c.end(op, 0, "", err)
+	if err != nil {
+		return
+	}
+	c.cl = cl
+	defer c.retire()
+	cmd.VerifRunCluster(runWait, &c15Cluster{c: c, cl: cl}, []syncer.SyncerConfig{c.cfg})
+}
+
+// c15Cluster hands runCluster recorded elections. All instances of the simulation live in one process and share the
+// global configuration, so the contender id (server.listenPeer, one per process in production) is supplied here.
+type c15Cluster struct {
+	c  *c15Contender
+	cl cluster.Cluster
+}
+
+func (k *c15Cluster) Close() error { return nil }
+func (k *c15Cluster) Register(ctx context.Context, svc, id string) error {
+	return nil
+}
+func (k *c15Cluster) Discover(ctx context.Context, svc string) ([]string, error) { return nil, nil }
+func (k *c15Cluster) NewElection(ctx context.Context, key string, id string) cluster.Election {
+	if key != k.c.sim.key {
+		k.c.mu.Lock()
+		k.c.events = append(k.c.events, fmt.Sprintf("%s contends for %q, the other instances for %q", k.c.id, key, k.c.sim.key))
+		k.c.mu.Unlock()
+		k.c.sim.keyMismatch.Store(true)
+	}
+	return &c15Rec{c: k.c, el: k.cl.NewElection(ctx, key, k.c.id)}
+}
+
+// c15Stub is the replication runCluster starts and stops: it does nothing but exist for as long as it is told to.
+type c15Stub struct {
+	c    *c15Contender
+	stop chan struct{}
+	once sync.Once
+}
+
+func (st *c15Stub) body(leader bool) {
+	c := st.c
+	b := c15Body{Leader: leader, StartNs: time.Now().UnixNano()}
+	c.sim.opsMu.Lock()
+	for i := len(c.sim.ops) - 1; i >= 0; i-- {
+		if o := c.sim.ops[i]; o.Who == c.idx && o.Done && o.Kind != "connect" && o.Kind != "leader" {
+			b.LastKind, b.LastRet, b.LastN = o.Kind, o.RetNs, o.N
+			b.LastTold = o.Kind == "campaign" && o.Err == nil && o.Role == cluster.RoleLeader
+			break
+		}
+	}
+	c.sim.opsMu.Unlock()
+	c.mu.Lock()
+	c.bodies = append(c.bodies, b)
+	c.events = append(c.events, fmt.Sprintf("%s starts its %s body", c.id, map[bool]string{true: "LEADER", false: "follower"}[leader]))
+	c.mu.Unlock()
+	<-st.stop
+}
+func (st *c15Stub) RunLeader() error                           { st.body(true); return nil }
+func (st *c15Stub) RunFollower(leader *cluster.RoleInfo) error { st.body(false); return nil }
+func (st *c15Stub) Stop() {
+	if d := st.c.stopDelay.Swap(0); d > 0 {
+		st.c.mu.Lock()
+		st.c.events = append(st.c.events, fmt.Sprintf("%s: stopping the replication takes %v", st.c.id, time.Duration(d)))
+		st.c.mu.Unlock()
+		time.Sleep(time.Duration(d))
+	}
+	st.once.Do(func() { close(st.stop) })
+}
+func (st *c15Stub) ServiceReplica(req *pb.SyncRequest, stream pb.ApiService_SyncServer) error {
+	return nil
+}
+func (st *c15Stub) RunIds() []string          { return nil }
+func (st *c15Stub) IsLeader() bool            { return false }
+func (st *c15Stub) Pause()                    {}
+func (st *c15Stub) DelRunId()                 {}
+func (st *c15Stub) Resume()                   {}
+func (st *c15Stub) State() syncer.SyncerState { return 0 }
+func (st *c15Stub) Role() syncer.SyncerRole   { return 0 }
+func (st *c15Stub) TransactionMode() bool     { return false }
 
 // ---------------------------------------------------------------- run
 
@@ -435,8 +575,9 @@ func runC15(r *Run, stratum string) *Violation {
 				Msg: fmt.Sprintf("source shard of master %s: instance 10.0.1.1:18001 (reads from %s) contends for lease %q, instance 10.0.1.%d:18001 (reads from %s) for lease %q - both leases are free for their only contender, both instances are told they are leader at the same time", shardMaster, readsFrom[0], keyOf[0], i+1, readsFrom[i], keyOf[i])}
 		}
 	}
-	s.faults = stratum == "free" || stratum == "expiry" || stratum == "renewloop_faults"
-	looping := strings.HasPrefix(stratum, "renewloop")
+	s.faults = stratum == "free" || stratum == "expiry" || stratum == "renewloop_faults" || stratum == "runcluster_faults"
+	s.realRunCluster = strings.HasPrefix(stratum, "runcluster")
+	looping := strings.HasPrefix(stratum, "renewloop") || s.realRunCluster
 	maxCalls := 8 + g.Choose("maxcalls", 53)
 	maxSteps := 120 + g.Choose("maxsteps", 500)
 
@@ -445,11 +586,29 @@ func runC15(r *Run, stratum string) *Violation {
 	r.Net.Listen(c15StoreAddr, s.srv)
 	s.startNs = time.Now().UnixNano()
 	s.srv.OnExec = s.onExec
-	if looping {
+	if looping && !s.realRunCluster {
 		s.loop = cmd.VerifNewLoop()
+	}
+	var runClusterInput config.RedisConfig
+	if s.realRunCluster {
+		// the source shard runCluster asks for its role (INFO replication) before every campaign round: a master
+		src := simredis.NewServer(shardMaster)
+		simredis.NewSource(src, "c15c15c15c15c15c15c15c15c15c15c15c15c15c1")
+		r.Net.Listen(shardMaster, src)
+		s.src = src
+		runClusterInput = config.RedisConfig{Addresses: []string{shardMaster}, Type: config.RedisTypeStandalone, Otype: config.RedisTypeStandalone, Version: "7.2.0", ClusterOptions: &config.RedisClusterOptions{}}
+		runClusterInput.SetClusterShards([]*config.RedisClusterShard{{Master: config.RedisNode{Address: shardMaster}}})
+		simsyncer.Factory = func(cfg simsyncer.SyncerConfig) simsyncer.Syncer {
+			return &c15Stub{c: s.cs[cfg.Id], stop: make(chan struct{})}
+		}
+		defer func() { simsyncer.Factory = nil }()
 	}
 	for i := 0; i < n; i++ {
 		c := &c15Contender{idx: i, id: fmt.Sprintf("10.0.1.%d:18001", i+1), sim: s, cmdCh: make(chan string, 1), down: true, parent: usync.NewWaitCloser(nil)}
+		c.cfg = syncer.SyncerConfig{Id: i, Input: runClusterInput}
+		if s.realRunCluster {
+			c.callSem = make(chan struct{}, 1)
+		}
 		s.cs = append(s.cs, c)
 		if looping {
 			go c.runLoop()
@@ -464,6 +623,7 @@ func runC15(r *Run, stratum string) *Violation {
 		steps++
 		s.step.Add(1)
 		r.Settle()
+		s.pumpSource()
 		s.drainEvents()
 		s.checkUnsupported()
 		acts := s.actions(stratum, looping, maxCalls)
@@ -586,6 +746,14 @@ func (s *c15Sim) actions(stratum string, looping bool, maxCalls int) []pipeActio
 				acts = append(acts, pipeAction{"start " + c.id, 6, func() { s.release(c, "start") }})
 			} else {
 				anyBusy = true
+				if s.realRunCluster && c.stopDelay.Load() == 0 {
+					// the replication of this instance will be slow to wind down the next time runCluster stops it
+					acts = append(acts, pipeAction{"slow-stop " + c.id, 1, func() {
+						d := time.Duration(s.ttl)*time.Second/2 + time.Duration(r.Sched().Choose("stopdelay", 4))*time.Duration(s.ttl)*time.Second/2
+						c.stopDelay.Store(int64(d))
+						r.W.Fault("slow_replication_stop")
+					}})
+				}
 			}
 			continue
 		}
@@ -736,6 +904,7 @@ func (s *c15Sim) finish(looping bool) {
 		}
 		for i := 0; i < 400 && !c.exited.Load(); i++ {
 			r.Settle()
+			s.pumpSource()
 			if c.exited.Load() {
 				break
 			}
@@ -743,6 +912,13 @@ func (s *c15Sim) finish(looping bool) {
 				if !ss.Dead && s.sessionOwner(ss) == c {
 					s.srv.KillSession(ss, 0)
 				}
+			}
+			if s.realRunCluster && i >= 20 {
+				// a replication that is slow to stop (fault slow_replication_stop) may keep the instance for up to two
+				// lease periods
+				c.stopDelay.Store(0)
+				r.Advance(time.Duration(s.ttlNs)/4 + adv)
+				continue
 			}
 			r.Advance(adv)
 		}
@@ -962,6 +1138,35 @@ func (s *c15Sim) oracle(ops []*c15Op) *Violation {
 				return s.viol("C15.overlap", "two contenders were told they hold the lease for intersecting intervals",
 					"%s was told leader for [%s,%s) by %s and %s for [%s,%s) by %s (ttl %ds): the intervals intersect in [%s,%s). History (store order):%s",
 					s.cs[a.who].id, s.rel(a.start), s.rel(a.end), s.opString(a.op), s.cs[b.who].id, s.rel(b.start), s.rel(b.end), s.opString(b.op), s.ttl, s.rel(lo), s.rel(hi), hist(nil))
+			}
+		}
+	}
+
+	// (2b) runcluster strata: the real runCluster starts the leader body of an instance only on the strength of a grant
+	// it has just received. A leader body that starts a whole lease period (or more) after the instance's last
+	// election call returned acts on a lease that, by the store's own clock, is over - whoever holds it now.
+	if s.realRunCluster {
+		if s.keyMismatch.Load() {
+			return s.viol("C15.lease_key", "instances serving the same source shard contend for different leases", "runCluster asked for another election key than %q (see the event log)", s.key)
+		}
+		for _, c := range s.cs {
+			c.mu.Lock()
+			bodies := append([]c15Body(nil), c.bodies...)
+			c.mu.Unlock()
+			for _, b := range bodies {
+				if !b.Leader {
+					continue
+				}
+				r.W.Probe("c15_leader_body_started")
+				if !b.LastTold {
+					return s.viol("C15.leader_without_grant", "an instance started acting as leader without having been told it is leader",
+						"%s started its leader body at %s; its last election call before that was %s#%d, which did not tell it that it is leader. History (store order):%s", c.id, s.rel(b.StartNs), b.LastKind, b.LastN, hist(nil))
+				}
+				if age := b.StartNs - b.LastRet; age >= s.ttlNs {
+					return s.viol("C15.leader_on_expired_grant", "an instance started acting as leader on a grant older than the lease",
+						"%s started its leader body at %s on the strength of campaign#%d, which had returned %v earlier (at %s); the lease lasts %ds and nothing renewed it in between, so by the store's clock it was over and free for (or held by) another instance. History (store order):%s",
+						c.id, s.rel(b.StartNs), b.LastN, time.Duration(age), s.rel(b.LastRet), s.ttl, hist(nil))
+				}
 			}
 		}
 	}
